@@ -730,3 +730,96 @@ pub fn difat_run(seed: u64, count: usize, out: &str) -> Report {
     w.flush().unwrap();
     rep
 }
+
+/// MS-CFB forbids only `/ \ : !` in names, so `.` and `..` are legal names of streams and
+/// storages in files written by other implementations.  The library addresses entries by
+/// `std::path::Path`, which gives those two names another meaning.  Every failure reported
+/// here starts with the key `dotname` (see KNOWN_FINDINGS.txt).
+pub fn dotnames_run() -> Report {
+    let mut rep = Report::new();
+    let mut rng = Rng::new(7);
+    let data = |n: usize, t: usize| -> Vec<u8> { (0..n).map(|i| ((i * 7 + t) % 251 + 1) as u8).collect() };
+    for v in [Version::V3, Version::V4] {
+        for (label, dot) in [("dot", "."), ("dotdot", "..")] {
+            // /plain, /<dot> (stream), /s/<dot> (stream), /s/keep, /t/<dot> (storage) / inner
+            let kids = vec![
+                Node::Stream { name: "plain".into(), state: 0, data: data(100, 1) },
+                Node::Stream { name: dot.into(), state: 0, data: data(300, 2) },
+                Node::Storage { name: "s".into(), clsid: 0, state: 0, ctime: 0, mtime: 0, kids: vec![
+                    Node::Stream { name: dot.into(), state: 0, data: data(5000, 3) },
+                    Node::Stream { name: "keep".into(), state: 0, data: data(64, 4) },
+                ] },
+                Node::Storage { name: "t".into(), clsid: 0, state: 0, ctime: 0, mtime: 0, kids: vec![
+                    Node::Storage { name: dot.into(), clsid: 0, state: 0, ctime: 0, mtime: 0, kids: vec![
+                        Node::Stream { name: "inner".into(), state: 0, data: data(70, 5) },
+                    ] },
+                ] },
+            ];
+            let sy = synthesize(&mut rng, v, &kids, (0, 0, 0, 0));
+            let mut want = Vec::new();
+            expected_dump(&kids, "/", &mut want);
+            for strict in [true, false] {
+                rep.evaluations += 1;
+                rep.distinct.insert(format!("{:?}-{}-{}", v, label, strict));
+                let ctx = format!("dotname {:?} name '{}' strict={}", v, dot, strict);
+                let mut live = match std::panic::catch_unwind(|| Live::open(sy.bytes.clone(), strict, 4096)) {
+                    Ok(Ok(l)) => l,
+                    Ok(Err(e)) => {
+                        rep.fail(format!("{}: open rejects a file whose entries are named '{}': {}", ctx, dot, e));
+                        continue;
+                    }
+                    Err(_) => {
+                        rep.fail(format!("{}: open panicked", ctx));
+                        continue;
+                    }
+                };
+                let r = std::panic::catch_unwind(std::panic::AssertUnwindSafe(|| {
+                    let mut bad: Vec<String> = Vec::new();
+                    let comp = live.comp.as_mut().unwrap();
+                    let listed: Vec<(String, bool, u64)> = comp.walk().map(|e| (e.path().to_str().unwrap_or("?").to_string(), e.is_stream(), e.len())).collect();
+                    if listed.len() != want.len() + 1 {
+                        bad.push(format!("walk lists {} entries, the file holds {}", listed.len(), want.len() + 1));
+                    }
+                    // every stream the walk lists must be readable through the path the walk gives
+                    for (p, is_stream, len) in listed.iter() {
+                        if !*is_stream {
+                            continue;
+                        }
+                        match comp.open_stream(p) {
+                            Ok(mut s) => {
+                                let mut got = Vec::new();
+                                let _ = s.read_to_end(&mut got);
+                                if got.len() as u64 != *len {
+                                    bad.push(format!("stream listed as {} ({} bytes) reads {} bytes", p, len, got.len()));
+                                }
+                            }
+                            Err(e) => bad.push(format!("stream listed as {} cannot be opened by that path: {}", p, e)),
+                        }
+                    }
+                    // removing the storage that holds the dot-named stream must succeed or change nothing
+                    let before = comp.walk().count();
+                    match comp.remove_storage_all("/s") {
+                        Ok(()) => {}
+                        Err(e) => {
+                            let after = comp.walk().count();
+                            if after != before {
+                                bad.push(format!("remove_storage_all(/s) failed ({}) after removing {} of its entries", e, before - after));
+                            }
+                        }
+                    }
+                    bad
+                }));
+                match r {
+                    Ok(bad) => {
+                        for b in bad {
+                            rep.fail(format!("{}: {}", ctx, b));
+                        }
+                    }
+                    Err(_) => rep.fail(format!("{}: panic", ctx)),
+                }
+            }
+        }
+    }
+    rep.samples.push("trees with a stream / storage named '.' or '..' at the root and inside storages, V3 and V4, both modes".into());
+    rep
+}
